@@ -488,6 +488,9 @@ def line_seg_pt_intersect_at_dim(
         return None
 
     point_on_line = P1 + t * (P2 - P1)
+    # By construction the intersection has the target's coordinate in this dimension; set it
+    # exactly so that rounding in the interpolation cannot push it past the target point.
+    point_on_line[target_dim] = target_pt[target_dim]
     return point_on_line
 
 
